@@ -6,7 +6,7 @@ Import ListNotations.
 Local Open Scope string_scope.
 
 (* ---- str(datetime) for the datetimes of a case: rows [aware, us, text] ---- *)
-Definition dts_of (tbl : value) (aware : bool) (us : Z) : string :=
+Definition dts_lookup (tbl : value) (aware : bool) (us : Z) : string :=
   match tbl with
   | VList rows =>
       match find (fun row => match row with
@@ -17,6 +17,9 @@ Definition dts_of (tbl : value) (aware : bool) (us : Z) : string :=
       end
   | _ => ""
   end.
+(* null: datetimes are kept apart from strings (the switch for a repaired F23) *)
+Definition dts_of (tbl : value) : option (bool -> Z -> string) :=
+  match tbl with VNull => None | _ => Some (dts_lookup tbl) end.
 
 (* ---- the checker as a table of recorded responses ----
    rows: [subject, relation, resource, ctx, response]
